@@ -168,6 +168,14 @@ class VectorContainer:
                 f"'{name}' is already defined in the current object"
             )
 
+        # Variables are stored with a leading underscore: don't replace an
+        # existing entry e.g. `_attributes`
+        if '_' + name in self.__dict__:
+            raise DuplicateNameError(
+                f"'{name}' cannot be a variable name: "
+                f"'_{name}' is already in use as an attribute of the object"
+            )
+
         # Cast to a 1D array
         if isinstance(value, Sequence) and not isinstance(value, str):
             value_as_array = np.array(value).flatten()
